@@ -12,12 +12,15 @@ mod fam_frame;
 mod fam_history;
 mod fam_list;
 mod fam_crypt;
+mod fam_fault;
 mod fam_foreign;
 mod fam_round;
+mod fam_sched;
 mod fam_split;
 mod fam_tree;
 mod gen;
 mod refdec;
+mod shapes;
 mod toy;
 mod util;
 
@@ -33,6 +36,10 @@ fn main() {
     let family = args[1].clone();
     if family == "consts" {
         consts::print();
+        return;
+    }
+    if family == "shapes" {
+        print!("{}", shapes::shapes());
         return;
     }
     let mut seed: u64 = std::env::var("VERIF_SEED").ok().and_then(|s| s.parse().ok()).unwrap_or(1);
@@ -66,6 +73,8 @@ fn main() {
         "list" => fam_list::list(&mut ctx),
         "roundtrip" => fam_round::roundtrip(&mut ctx),
         "foreign" => fam_foreign::foreign(&mut ctx),
+        "sched" => fam_sched::sched(&mut ctx),
+        "fault" => fam_fault::fault(&mut ctx),
         "cli-codec" => fam_clicodec::cli_codec(&mut ctx),
         "cli-crypt" => fam_crypt::cli_crypt(&mut ctx),
         "hostile-solid" => fam_foreign::hostile_solid(&mut ctx),
